@@ -12,6 +12,7 @@ CONSTANTS
   ScsSids = {0}
   ReaderScsAnySid = TRUE
   LazyFlushTypes = {}
+  NoSharedState = TRUE
 INVARIANTS NoDesync PrefixOk InFollowsOut AllDelivered HandshakeBytes HsExact NoByteLost SessionAfterHandshake
 PROPERTY AppendOnly
 CHECK_DEADLOCK FALSE
